@@ -1810,6 +1810,9 @@ pub(crate) async fn setup_redirect(
                         false
                     };
 
+                    // `N>&-` closes N; `N>&M-` moves M to N, i.e. closes M after duplicating it.
+                    let mut fd_to_close = dash.then_some(fd_num);
+
                     if expanded.is_empty() {
                         // Nothing to do
                     } else if expanded.chars().all(|c: char| c.is_ascii_digit()) {
@@ -1823,6 +1826,10 @@ pub(crate) async fn setup_redirect(
                         };
 
                         params.open_files.set_fd(fd_num, target_file);
+
+                        if dash {
+                            fd_to_close = (source_fd_num != fd_num).then_some(source_fd_num);
+                        }
                     } else if fd_num == 1 && !dash {
                         // Special case for compatibility: redirect stdout and stderr to the file
                         // given by `expanded`.
@@ -1833,9 +1840,9 @@ pub(crate) async fn setup_redirect(
                         return Err(error::ErrorKind::InvalidRedirection.into());
                     }
 
-                    if dash {
-                        // Close the specified fd. Ignore it if it's not valid.
-                        params.open_files.remove_fd(fd_num);
+                    if let Some(fd_to_close) = fd_to_close {
+                        // Close the fd. Ignore it if it's not valid.
+                        params.open_files.remove_fd(fd_to_close);
                     }
                 }
 
